@@ -316,6 +316,10 @@ func init() {
 			return tFalse
 		},
 		rtPkg + ".JSONGet": icJSONGet,
+		"encoding/json.Marshal":   icJSONMarshal,
+		"encoding/json.Unmarshal": icJSONUnmarshal,
+		"k8s.io/apimachinery/pkg/util/json.Marshal":   icJSONMarshal,
+		"k8s.io/apimachinery/pkg/util/json.Unmarshal": icJSONUnmarshal,
 
 		// ---------------- fmt / errors ----------------
 		"fmt.Sprintf": func(ex *Exec, fr *frame, fn *ssa.Function, args []Value, pos tokenPos) Value {
@@ -381,6 +385,9 @@ func init() {
 			s, o, n, cnt := asTerm(args[0]), asTerm(args[1]), asTerm(args[2]), asTerm(args[3])
 			if s.op == "c" && o.op == "c" && n.op == "c" && cnt.op == "c" {
 				return mkStr(strings.Replace(s.s, o.s, n.s, int(cnt.i.Int64())))
+			}
+			if r := ex.replaceOnToken(s, o, n); r != nil {
+				return r
 			}
 			if c, ok := cnt.constInt(); ok && c == 1 {
 				return mkStrReplace(s, o, n)
@@ -750,6 +757,30 @@ func invFromInt(s *Term) (*Term, bool) {
 		}
 	}
 	return nil, false
+}
+
+// replaceOnToken models the two whole-document rewrites the repository applies to marshalled JSON.
+func (ex *Exec) replaceOnToken(s, o, n *Term) *Term {
+	node, ok := ex.jsonTok[s]
+	if !ok || o.op != "c" || n.op != "c" {
+		return nil
+	}
+	switch {
+	case o.s == "\"" && n.s == "\\\"":
+		// escape quotes so that the document can be embedded in a JSON string literal
+		t := ex.fresh("jsonesc", SStr)
+		ex.jsonEsc[t] = s
+		return t
+	case o.s == "\"NULL_HOLDER\"" && n.s == "null":
+		nn := jsonMapNodes(node, func(x *JNode) *JNode {
+			if x.kind == "str" && x.scalar.op == "c" && x.scalar.s == "NULL_HOLDER" {
+				return &JNode{kind: "null"}
+			}
+			return x
+		})
+		return ex.newToken(nn)
+	}
+	return nil
 }
 
 // ---- formatting ----
